@@ -134,10 +134,14 @@ func ApplyLinkADR(kind int, device []int, block []LinkADR) (result []int, ok boo
 	for _, l := range block {
 		switch kind {
 		case PlanDynamic:
-			if l.ChMaskCntl != 0 {
+			// the Regional Parameters define ChMaskCntl 0 for these regions
+			// (16 channels); the library lets a network add more channels
+			// and addresses block k with ChMaskCntl k, as CN470 does: the
+			// model follows that generalisation
+			if l.ChMaskCntl < 0 || l.ChMaskCntl > 5 {
 				return nil, false
 			}
-			setBlock(0, l.ChMask, 16)
+			setBlock(16*l.ChMaskCntl, l.ChMask, 16)
 		case PlanCN470:
 			if l.ChMaskCntl < 0 || l.ChMaskCntl > 5 {
 				return nil, false
